@@ -52,6 +52,10 @@ type Simulator interface {
 	NoYield(delta int)
 	// Probe counts that a branch of interest was taken.
 	Probe(name string)
+	// Label names the goroutine the calling task spawns next, so that the
+	// simulator can order tasks by what they do rather than by the order in
+	// which they were started (which may come from ranging over a map).
+	Label(name string)
 	// RegisterCloser tells the simulator how to drop a real lock held
 	// by the calling task, should it decide to kill the task's process.
 	RegisterCloser(res any, close func())
@@ -122,6 +126,12 @@ func NoYield(delta int) {
 func Probe(name string) {
 	if s := active; s != nil {
 		s.Probe(name)
+	}
+}
+
+func Label(name string) {
+	if s := active; s != nil {
+		s.Label(name)
 	}
 }
 
